@@ -20,6 +20,6 @@ YOUR TASK: make ONE small, realistic change to the library source under {wt}/src
  (b) the existing test-suite still passes with your change: run `cargo test --offline --workspace --no-fail-fast` in {wt} (it takes a few minutes; all tests must pass - if one fails, pick a different change);
  (c) the breakage needs something SPECIFIC to manifest - a multi-step sequence of operations, an unusual input, a graph type with vacant indices, an index type at its capacity, two cooperating sites that each look fine alone - not something ordinary use would expose at once.
 {extra}
-Then write a demonstration: a test file {wt}/tests/zz_demo_{pid.lower()}.rs (for serde-related behaviour put it in {wt}/serialization-tests/tests/ instead) containing one or more #[test] functions that FAIL with your change and PASS without it. Verify both directions yourself (e.g. `git stash` the src change, run the demo test, `git stash pop`, run again).
+Then write a demonstration: a test file {wt}/tests/zz_demo_{pid.lower()}.rs (for serde-related behaviour put it in {wt}/serialization-tests/tests/ instead) containing one or more #[test] functions that FAIL with your change and PASS without it. Verify both directions yourself. IMPORTANT: do NOT use `git stash` (the stash is shared with other worktrees of this repository and other people are working in them); instead save your change with `git diff -- src > /tmp/<your-id>.patch`, revert it with `git apply -R`, run the demo, and re-apply it with `git apply`.
 
 Leave your change as UNCOMMITTED modifications in the worktree (do not commit), together with the demo test file. Do not modify existing tests. When done, reply with: (1) the diff of your src change, (2) what is needed for the breakage to manifest, (3) the exact commands you ran and their outcomes (build, full test-suite with the change, demo with and without the change).""")
